@@ -26,9 +26,33 @@ def body(U, path, rule="anchor"):
     return b
 
 
-def summarize(U, path, inline=(), keep_tags=False, args=None, stop=None):
+def type_overrides(U, q):
+    """{short trait method name: path of q's own impl method} for every default method of Unit / LinearScaledUnit /
+    Quantity / HasRefUnit that the impls of quantity type q override."""
+    res = {}
+    for imp, short in ((q.impl_unit, "Unit"), (getattr(q, "impl_lsu", None), "LinearScaledUnit"),
+                       (q.impl_quantity, "Quantity"), (getattr(q, "impl_hru", None), "HasRefUnit")):
+        if imp is None:
+            continue
+        t = U.trait_items.get(imp.get("trait"))
+        if t is None:
+            continue
+        defaults = {i["name"] for i in t["items"] if i.get("has_default") and i.get("kind") == "fn"}
+        for it in imp["items"]:
+            if it["name"] in defaults and it.get("kind") == "fn":
+                res["%s::%s" % (short, it["name"])] = it["path"]
+    return res
+
+
+def summarize(U, path, inline=(), keep_tags=False, args=None, stop=None, overrides=None):
     b = body(U, path)
-    ev = T.Evaluator(U, inline=inline, keep_tags=keep_tags, stop=STOP if stop is None else stop)
+    short = None
+    for pfx, nm in ((UNIT, "Unit::"), (LSU, "LinearScaledUnit::"), (QTY, "Quantity::"), (HRU, "HasRefUnit::")):
+        if path.startswith(pfx):
+            short = nm + path[len(pfx):]
+    if overrides and short in overrides and overrides[short] in U.body:
+        b = U.body[overrides[short]]      # the entry point itself is overridden for this type
+    ev = T.Evaluator(U, inline=inline, keep_tags=keep_tags, stop=STOP if stop is None else stop, overrides=overrides)
     try:
         outs = ev.summarize(b, args=args)
     except T.Unsupported as u:
